@@ -345,14 +345,14 @@ pub fn subchecks(tier: Tier) -> Vec<SubCheck> {
         generated(
             "generated_readers",
             "reader = (byte program <= 160 KiB, read-size schedule with sizes 1..=40000 clamped to the buffer, optional fault (read index anywhere in the run, one of 12 error kinds incl. Interrupted and WouldBlock)); oracle: fault => Err(IOError(kind)), never Ok; no fault => hash_buf of the delivered bytes and the whole stream consumed; non-trivial = fault after >= 1 successful non-empty read; distinct by case",
-            tier.pick(100_000, 1_500_000),
+            tier.pick(600_000, 6_000_000),
             move || strategy(wt_seed(), tier),
             eval,
         ),
         generated(
             "files",
             "hash_file on temp regular files (= hash_buf), missing paths (IOError NotFound), directories (error), FIFOs fed k bytes by a writer thread (metadata says 0: k > 0 => size-mismatch error, k = 0 => 3::), procfs / sysfs entries whose metadata size disagrees with their content (must be an error); non-trivial = lying metadata or a regular file longer than one buffer; distinct by content / path",
-            tier.pick(3_000, 40_000),
+            tier.pick(6_000, 60_000),
             move || {
                 let wt = wt_seed();
                 (0u8..5, prop_oneof![2 => gens::prog_mix(wt, 100_000, 8), 1 => Just(Prog { wt, toks: vec![], target: None, pad_zeros: true, pad_seed: 0 })], any::<u8>())
